@@ -35,9 +35,9 @@ import concurrent.futures as cf
 ROOT = os.path.dirname(os.path.dirname(os.path.abspath(__file__)))
 REPO = os.environ.get("VF_REPO", "/repo")
 WAITRESS_SRC = os.environ.get("VF_WAITRESS_SRC", os.path.join(REPO, "src"))
-WORK = os.path.join(ROOT, ".work")
-REPLAYS = os.path.join(ROOT, "replays")
-EVIDENCE = os.path.join(ROOT, "evidence")
+WORK = os.environ.get("VF_WORK_DIR") or os.path.join(ROOT, ".work")
+REPLAYS = os.environ.get("VF_REPLAY_DIR") or os.path.join(ROOT, "replays")
+EVIDENCE = os.environ.get("VF_EVIDENCE_DIR") or os.path.join(ROOT, "evidence")
 KNOWN = os.path.join(ROOT, "known_findings.json")
 PY = sys.executable
 NPROC = int(os.environ.get("VF_JOBS", "0")) or min(16, os.cpu_count() or 4)
